@@ -33,7 +33,8 @@
 (*        only sub-invocation is `sub` (if not "none") and whose signature *)
 (*        is the descriptor vector `metas`; xauth: accounts for which an   *)
 (*        entry authorizing exactly the executor tuple of every            *)
-(*        (context, descriptor) pair is attached                           *)
+(*        (context, descriptor) pair is attached - except for the pair     *)
+(*        number xskip (1-based; 0: none is left out)                      *)
 (*   chk(ctxs, metas, xauth)  __check_auth entered directly with crafted    *)
 (*        contexts: call names (a context on the controller), "foreign"    *)
 (*        (update_delay(0) on another contract), "create" (a create-       *)
@@ -144,8 +145,8 @@ Cons(m, g, ev) ==
     \* executors configured: the call's descriptor (every context's descriptor when __check_auth
     \* is entered directly) names a role-holding executor that authorized
     [] m = "C09_executor" ->
-         IF o.op = "admin" THEN Len(o.metas) >= 1 /\ ExecOK(g, o.metas[1], o.xauth)
-         ELSE \A i \in 1..Len(o.ctxs) : i <= Len(o.metas) /\ ExecOK(g, o.metas[i], o.xauth)
+         IF o.op = "admin" THEN Len(o.metas) >= 1 /\ o.xskip # 1 /\ ExecOK(g, o.metas[1], o.xauth)
+         ELSE \A i \in 1..Len(o.ctxs) : i <= Len(o.metas) /\ i # o.xskip /\ ExecOK(g, o.metas[i], o.xauth)
     [] m = "C09_roles" ->
          (CASE o.op = "schedule" -> Holds_(g, o.who, "proposer") /\ o.auth /\ o.who \notin g.deny
             [] o.op = "cancel"   -> Holds_(g, o.who, "canceller") /\ o.auth /\ o.who \notin g.deny
